@@ -11,3 +11,6 @@ import PeptVerif.Props.C02
 #print axioms Pept.C02.adductMass_discrepancy
 #print axioms Pept.C02.adductMass_count_one
 #print axioms Pept.C02.mass_eq_spec_full_false_on_current_code
+#print axioms Pept.C02.avg_keys_ok
+#print axioms Pept.C02.mass_eq_spec_adducts
+#print axioms Pept.C02.adductDefect_counts_one
